@@ -6,6 +6,7 @@ import (
 
 	"github.com/ipfs/go-cid"
 	carv2 "github.com/ipld/go-car/v2"
+	mh "github.com/multiformats/go-multihash"
 )
 
 var scanReaders = []string{"br-seek", "br-plain", "v1"}
@@ -160,8 +161,38 @@ func bigSectionCases(g *Gen, o *Out, thorough bool) {
 	}
 }
 
+// hashKindCases: one small archive per hash function / digest length of the alphabet, with a flip
+// in the block's data and one in its digest, so that no kind of CID escapes verification.
+func hashKindCases(g *Gen, o *Out) {
+	for _, hc := range hashAlphabet[5:] {
+		d := g.bytes(3 + g.pick(20))
+		h, err := mh.Sum(d, hc.code, hc.len)
+		if err != nil {
+			continue
+		}
+		b := Blk{cid.NewCidV1(cid.Raw, h), d}
+		first := g.Block()
+		bs := []Blk{first, b}
+		o.HashBlocks(bs)
+		r := []cid.Cid{first.C}
+		arch := writeAll(r, bs, true)
+		ro := defaultReadOpts()
+		desc := fmt.Sprintf("roots=%s blocks=%s ver=1 dp=0 arch=%s", rootsArg(r), blocksStr(bs), hex.EncodeToString(arch))
+		for _, i := range []int{len(arch) - 1, len(arch) - len(d), len(arch) - len(d) - 1} {
+			x := byte(1 << g.pick(8))
+			mutd := append([]byte{}, arch...)
+			mutd[i] ^= x
+			refSections(mutd, o.Hash)
+			rd := scanReaders[g.pick(len(scanReaders))]
+			o.Line(fmt.Sprintf("mut rd=%s %s %s flip=%d xor=%d", rd, ro, desc, i, x), runReader(rd, ro, mutd)+" archok=1")
+			o.Count(fmt.Sprintf("flip-kind/%d", hc.code))
+		}
+	}
+}
+
 func famC02(g *Gen, o *Out, n int, thorough bool) {
 	bigSectionCases(g, o, thorough)
+	hashKindCases(g, o)
 	for c := 0; c < n; c++ {
 		maxB := 4
 		if thorough {
